@@ -12,6 +12,8 @@
 #include "meta.h"
 #include "layout.h"
 #include "values.h"
+#include "collection.h"
+#include "parse.h"
 
 /* mpt++/array.cpp, item_group.cpp, graph.cpp and layout.cpp are compiled into this translation unit (harness flag
  * -fno-sanitize=vptr): the item arrays of graph / layout keep their elements in C-made buffers (_mpt_buffer_alloc) whose
@@ -21,6 +23,10 @@
 #include "item_group.cpp"
 #include "graph.cpp"
 #include "layout.cpp"
+/* add_items() and the relation search call the text metatypes of the parsed nodes (C-made) */
+#include "collection.cpp"
+/* cycle::limit_stages grows a typed array whose content is a C-made buffer */
+#include "cycle.cpp"
 
 using namespace mpt;
 
@@ -125,6 +131,165 @@ static void x_retname(xobj *x, int r)
 	else vh_add("n%d", r);
 }
 
+static int x_me_id(struct hobj *h)
+{
+	switch (h->kind) {
+	case K_AXIS: return type_properties<layout::graph::axis *>::id(true);
+	case K_LINE: return type_properties<layout::line *>::id(true);
+	case K_TEXT: return type_properties<layout::text *>::id(true);
+	case K_GRAPH: return type_properties<layout::graph *>::id(true);
+	case K_WORLD: return type_properties<layout::graph::world *>::id(true);
+	default: return type_properties<layout *>::id(true);
+	}
+}
+
+/* logger that formats every message (so that format and arguments are exercised) and keeps nothing */
+class hlogger : public logger
+{
+public:
+	hlogger() : count(0) { }
+	int log(const char *from, int type, const char *fmt, va_list va) __MPT_OVERRIDE
+	{
+		char buf[1024];
+		(void) from; (void) type;
+		if (fmt) vsnprintf(buf, sizeof(buf), fmt, va);
+		++count;
+		return 0;
+	}
+	int count;
+};
+
+/* full property dump of any object behind the generic interface (text: also x / y by name) */
+static int xo_get(struct hobj *h, struct ::mpt::property *pr)
+{
+	return static_cast<object *>(h->impl)->property(pr);
+}
+static void x_dump_object(object *o, int kind)
+{
+	struct hobj h;
+	h.kind = kind; h.get = xo_get; h.set = 0; h.obj = o; h.source = 0; h.impl = o;
+	h_dump(&h);
+}
+/* class of an item: letter and object interface */
+static char x_item_class(metatype *mt, object **op, int *kind)
+{
+	layout::graph::axis *a; layout::graph::world *w; layout::line *l; layout::text *t; layout::graph *g;
+	*op = 0; *kind = -1;
+	if (!mt) return '0';
+	if ((a = *mt)) { *op = a; *kind = K_AXIS; return 'a'; }
+	if ((w = *mt)) { *op = w; *kind = K_WORLD; return 'w'; }
+	if ((l = *mt)) { *op = l; *kind = K_LINE; return 'l'; }
+	if ((t = *mt)) { *op = t; *kind = K_TEXT; return 't'; }
+	if ((g = *mt)) { *op = g; *kind = K_GRAPH; return 'g'; }
+	return '?';
+}
+static void x_name(const char *n)
+{
+	if (n) vh_hex(n, strlen(n)); else vh_add("~");
+}
+static void x_view_graph(layout::graph *gr);
+static void x_view_items(span<const item<metatype> > items, int deep)
+{
+	for (const item<metatype> *i = items.begin(); i != items.end(); ++i) {
+		object *o; int kind;
+		char c = x_item_class(i->instance(), &o, &kind);
+		vh_add("i(");
+		x_name(i->name());
+		vh_add(";%c", c);
+		if (o) { vh_add(";"); x_dump_object(o, kind); }
+		if (c == 'g' && deep) { layout::graph *g = *i->instance(); vh_add(";"); x_view_graph(g); }
+		vh_add(")");
+	}
+}
+/* items of a graph (with their properties), bound axes and worlds with the properties of the bound objects */
+static void x_view_graph(layout::graph *gr)
+{
+	vh_add("[");
+	x_view_items(gr->items(), 0);
+	vh_add("]");
+	span<const item<layout::graph::axis> > ax = gr->axes();
+	for (const item<layout::graph::axis> *i = ax.begin(); i != ax.end(); ++i) {
+		layout::graph::axis *a = i->instance();
+		vh_add("a(");
+		x_name(i->name());
+		if (a) { vh_add(";"); x_dump_object(a, K_AXIS); }
+		vh_add(")");
+	}
+	span<const item<layout::graph::data> > wl = gr->worlds();
+	for (const item<layout::graph::data> *i = wl.begin(); i != wl.end(); ++i) {
+		layout::graph::data *d = i->instance();
+		layout::graph::world *w = d ? d->world.instance() : 0;
+		vh_add("w(");
+		x_name(i->name());
+		if (w) { vh_add(";"); x_dump_object(w, K_WORLD); }
+		vh_add(")");
+	}
+}
+static void x_view_layout(layout *ly)
+{
+	x_view_items(ly->items(), 1);
+	vh_add("/");
+	span<const item<layout::graph> > gs = ly->graphs();
+	for (const item<layout::graph> *g = gs.begin(); g != gs.end(); ++g) {
+		int pos = 0, found = -1;
+		span<const item<metatype> > items = ly->items();
+		for (const item<metatype> *i = items.begin(); i != items.end(); ++i, ++pos) {
+			layout::graph *ig = i->instance() ? (layout::graph *) *i->instance() : 0;
+			if (ig && ig == g->instance()) { found = pos; break; }
+		}
+		vh_add("g(");
+		x_name(g->name());
+		if (found >= 0) vh_add(";%d", found); else vh_add(";new");
+		vh_add(")");
+	}
+	{
+		fpoint ms = ly->minimal_scale();
+		uint32_t bx, by;
+		memcpy(&bx, &ms.x, 4); memcpy(&by, &ms.y, 4);
+		vh_add("/%08lx;%08lx", (unsigned long) bx, (unsigned long) by);
+	}
+}
+/* layout file made of the entry tokens:  p:<name>:<T text>  |  i:<section key>  |  e  |  r:<raw text> */
+static char x_files[16][40];
+static int x_nfiles = 0;
+static void x_files_remove(void)
+{
+	while (x_nfiles > 0) unlink(x_files[--x_nfiles]);
+}
+static char *x_layout_file(int n, char **tok)
+{
+	char *path;
+	FILE *f;
+	int i, fd;
+	if (x_nfiles >= 16) return 0;
+	path = x_files[x_nfiles];
+	strcpy(path, "/tmp/c20_layout_XXXXXX");
+	if ((fd = mkstemp(path)) < 0) return 0;
+	++x_nfiles;
+	if (!(f = fdopen(fd, "w"))) { close(fd); return 0; }
+	for (i = 0; i < n; i++) {
+		const char *t = tok[i];
+		if (t[0] == 'e') fputs("}\n", f);
+		else if (t[0] == 'i' || t[0] == 'r') {
+			char *k = h_text(t + 2);
+			if (k) fputs(k, f);
+			fputs(t[0] == 'i' ? " {\n" : "\n", f);
+			free(k);
+		}
+		else if (t[0] == 'p') {
+			char *cp = strdup(t + 2), *sep = strchr(cp, ':');
+			char *nm, *val;
+			if (sep) *sep = 0;
+			nm = h_text(cp);
+			val = sep ? h_text(sep + 2) : 0;
+			fprintf(f, "%s = %s;\n", nm ? nm : "", val ? val : "");
+			free(nm); free(val); free(cp);
+		}
+	}
+	fclose(f);
+	return path;
+}
+
 static int x_op(struct hobj *ha, struct hobj *hb, const char *op, int ntok, char **tok, int *tp)
 {
 	int t = *tp;
@@ -168,6 +333,19 @@ static int x_op(struct hobj *ha, struct hobj *hb, const char *op, int ntok, char
 		const char *which = tok[t + 1];
 		char *txt = h_text(tok[t + 2]);
 		int r = -1;
+		if (x->tx && !strcmp(which, "tmeta")) {
+			/* text::set(metatype &): the value from a text metatype as a parsed configuration node holds it */
+			value v;
+			const char *ct = txt;
+			metatype *m;
+			v.set('s', &ct);
+			m = mpt_meta_new(&v);
+			*tp = t + 3;
+			if (!m) vh_tok("?meta");
+			else { h_result(static_cast< ::mpt::text *>(x->tx)->set(*m)); m->unref(); }
+			free(txt);
+			return 1;
+		}
 		if (x->tx && !strcmp(which, "value")) r = x->tx->set_value(txt);
 		else if (x->tx && !strcmp(which, "font")) r = x->tx->set_font(txt);
 		else if (x->wl && !strcmp(which, "alias")) r = x->wl->set_alias(txt);
@@ -176,6 +354,50 @@ static int x_op(struct hobj *ha, struct hobj *hb, const char *op, int ntok, char
 		free(txt);
 		*tp = t + 3;
 		if (r < 0) vh_tok("?cset"); else vh_tok("B%d", r);
+		return 1;
+	}
+	if (!strcmp(op, "oset")) {
+		/* oset <tgt> <L|N>: object::set(const object &, logger *): every property of the other object by value */
+		xobj *x = static_cast<xobj *>((tok[t][0] == 'b' ? hb : ha)->impl);
+		xobj *o = static_cast<xobj *>((tok[t][0] == 'b' ? ha : hb)->impl);
+		hlogger lg;
+		bool r = x->ob->set(*o->ob, tok[t + 1][0] == 'L' ? &lg : 0);
+		*tp = t + 2;
+		vh_tok("B%d", (int) r);
+		return 1;
+	}
+	if (!strcmp(op, "lload") || !strcmp(op, "lagain") || !strcmp(op, "lopen")) {
+		xobj *x = static_cast<xobj *>((tok[t][0] == 'b' ? hb : ha)->impl);
+		hlogger lg;
+		if (!x->ly) { vh_tok("?layout"); *tp = ntok; return 1; }
+		if (!strcmp(op, "lopen")) {
+			/* lopen <tgt> <N|X>: open(0) / open(<no such file>) */
+			bool r = tok[t + 1][0] == 'N' ? x->ly->open(0) : x->ly->open("/nonexistent/c20/layout.lay");
+			*tp = t + 2;
+			vh_tok("B%d", (int) r);
+			return 1;
+		}
+		if (!strcmp(op, "lload")) {
+			/* lload <tgt> <n> <entry>*n: write the layout file, open it, load it */
+			int n = atoi(tok[t + 1]);
+			char *path;
+			bool r;
+			if (n < 0 || t + 2 + n > ntok) { vh_tok("?lload"); *tp = ntok; return 1; }
+			path = x_layout_file(n, tok + t + 2);
+			*tp = t + 2 + n;
+			if (!path) { vh_tok("?file"); return 1; }
+			r = x->ly->open(path);
+			if (r) r = x->ly->load(&lg);
+			else vh_add(" ?open");
+			vh_tok("L%d:", (int) r);
+		}
+		else {
+			/* lagain <tgt>: load() on whatever input the layout has */
+			bool r = x->ly->load(&lg);
+			*tp = t + 1;
+			vh_tok("L%d:", (int) r);
+		}
+		x_view_layout(x->ly);
 		return 1;
 	}
 	if (!strcmp(op, "lreset")) {
@@ -263,7 +485,35 @@ static int x_op(struct hobj *ha, struct hobj *hb, const char *op, int ntok, char
 			return 1;
 		}
 	}
-	if (!strcmp(op, "gadd") || !strcmp(op, "gitem") || !strcmp(op, "gbind") || !strcmp(op, "gtr")) {
+	if (!strcmp(op, "gview") || !strcmp(op, "gcyc") || !strcmp(op, "gscyc")) {
+		xobj *x = static_cast<xobj *>((tok[t][0] == 'b' ? hb : ha)->impl);
+		if (!x->gr) { vh_tok("?graph"); *tp = ntok; return 1; }
+		if (!strcmp(op, "gview")) {
+			*tp = t + 1;
+			vh_tok("W");
+			x_view_graph(x->gr);
+			return 1;
+		}
+		if (!strcmp(op, "gcyc")) {
+			/* gcyc <tgt> <pos>: the cycle of a bound world: created on demand, limited to the world's cycle count */
+			const reference<class cycle> *c = x->gr->cycle(atoi(tok[t + 1]));
+			*tp = t + 2;
+			if (!c) vh_tok("C~");
+			else if (!c->instance()) vh_tok("C0~");
+			else vh_tok("C%ld", c->instance()->stage_count());
+			return 1;
+		}
+		{
+			reference<class cycle> rc;
+			bool r;
+			rc.set_instance(new reference<class cycle>::type);
+			r = x->gr->set_cycle(atoi(tok[t + 1]), rc);
+			*tp = t + 2;
+			vh_tok("B%d", (int) r);
+			return 1;
+		}
+	}
+	if (!strcmp(op, "gadd") || !strcmp(op, "gitem") || !strcmp(op, "gbind") || !strcmp(op, "gbindl") || !strcmp(op, "gbindo") || !strcmp(op, "gtr")) {
 		xobj *x = static_cast<xobj *>((tok[t][0] == 'b' ? hb : ha)->impl);
 		if (!x->gr) { vh_tok("?graph"); *tp = ntok; return 1; }
 		if (!strcmp(op, "gadd")) {
@@ -303,15 +553,34 @@ static int x_op(struct hobj *ha, struct hobj *hb, const char *op, int ntok, char
 			free(prop);
 			free(ptxt);
 		}
-		else if (!strcmp(op, "gbind")) {
-			int r = x->gr->bind(0, 0);
+		else if (!strcmp(op, "gbind") || !strcmp(op, "gbindl") || !strcmp(op, "gbindo")) {
+			/* gbind: bind(0, 0); gbindl: with a logger; gbindo: names are looked up among the items of the other graph */
+			hlogger lg;
+			int r;
+			if (!strcmp(op, "gbindo")) {
+				xobj *o = static_cast<xobj *>((tok[t][0] == 'b' ? ha : hb)->impl);
+				collection::relation rel(*o->gr);
+				r = x->gr->bind(&rel, &lg);
+			}
+			else r = x->gr->bind(0, !strcmp(op, "gbindl") ? &lg : 0);
 			*tp = t + 1;
 			if (r < 0) vh_tok("E%d", -r); else vh_tok("K%d", r);
 		}
 		else {
 			bool r = x->gr->update_transform(-1);
+			int d;
 			*tp = t + 1;
 			vh_tok("T%d:%d,%d,%d", (int) r, x->gr->transform_flags(0), x->gr->transform_flags(1), x->gr->transform_flags(2));
+			/* dimensions of the transformation, the parts and the limits taken from the bound axes (begin / end) */
+			vh_add(";d%d;u%d%d;f%d", x->gr->transform().dimensions(), (int) x->gr->update_transform(3), (int) x->gr->update_transform(0), x->gr->transform_flags(3));
+			for (d = 0; d < 4; d++) {
+				const struct value_apply *va = x->gr->transform_part(d);
+				if (!va) { vh_add(";~"); continue; }
+				const layout::graph::transform3::data *td = static_cast<const layout::graph::transform3::data *>(va);
+				uint64_t lo, hi;
+				memcpy(&lo, &td->limit.min, 8); memcpy(&hi, &td->limit.max, 8);
+				vh_add(";%016llx,%016llx", (unsigned long long) lo, (unsigned long long) hi);
+			}
 		}
 		/* bound axes and worlds: name and, for axes, the interval/begin properties of the bound object */
 		vh_add(":");
@@ -375,6 +644,7 @@ static void run_case(int ntok, char **tok)
 	int kind;
 	if (ntok < 3) return;
 	if (!strcmp(tok[2], "pm")) { h_run_pm(ntok, tok); return; }
+	if (!strcmp(tok[2], "lat")) { h_run_lat(ntok, tok); return; }
 	if (!strcmp(tok[2], "col")) { run_col(ntok, tok); return; }
 	if ((kind = h_kind(tok[2])) < 0) { vh_tok("?kind"); return; }
 	{
@@ -382,6 +652,7 @@ static void run_case(int ntok, char **tok)
 		h_run_object_case(ntok, tok, &a->h, &b->h);
 		x_free(a);
 		x_free(b);
+		x_files_remove();
 		vh_tok(__lsan_do_recoverable_leak_check() ? "ZL" : "Z");
 	}
 }
@@ -390,5 +661,6 @@ int main(int argc, char **argv)
 	mpt_color_typeid(); mpt_lattr_typeid(); mpt_fpoint_typeid(); mpt_line_typeid();
 	mpt_axis_pointer_typeid(); mpt_text_pointer_typeid(); mpt_graph_pointer_typeid(); mpt_world_pointer_typeid();
 	h_xop = x_op;
+	h_me_id = x_me_id;
 	return vh_main(argc, argv, run_case);
 }
